@@ -185,11 +185,37 @@ def enc_segs(seglists):
     return "".join("|" + x for x in out)
 
 
-def real_format_tree(L, R, cfg, opts):
+class _FrozenTime:
+    @staticmethod
+    def time():
+        return 0.0
+
+
+def real_format_tree(L, R, cfg, opts, table=None):
     """Runs diff_trees with an XMLFormatter instrumented from outside: returns
-    (script, segment lists, captured tree or exception signature)."""
+    (script, segment lists, captured tree or exception signature).  With `table` (a dict) the engine the formatter
+    constructs is a recording subclass (clock frozen): table[(t1, t2)] = split point of diff_bisect or None."""
     from xmldiff import main, formatting
     import real
+
+    if table is not None:
+        from xmldiff import diff_match_patch as dmpmod
+
+        class Rec(dmpmod.diff_match_patch):
+            def diff_bisect(self, t1, t2, deadline):
+                table.setdefault((t1, t2), None)
+                return super().diff_bisect(t1, t2, deadline)
+
+            def diff_bisectSplit(self, t1, t2, x, y, deadline):
+                table[(t1, t2)] = (x, y)
+                return super().diff_bisectSplit(t1, t2, x, y, deadline)
+
+        saved = (formatting.diff_match_patch, dmpmod.time)
+        formatting.diff_match_patch, dmpmod.time = Rec, _FrozenTime
+        try:
+            return real_format_tree(L, R, cfg, opts)
+        finally:
+            formatting.diff_match_patch, dmpmod.time = saved
 
     f = formatting.XMLFormatter(**cfg)
     seglists, captured, scripts = [], [], []
@@ -230,7 +256,8 @@ def u9_cases(seed, lo, hi, extra):
     reqs, pend = [], []
     for idx in range(lo, hi):
         L, R, cfg, opts = valid_case(seed + 3, idx, tier)
-        script, seglists, res = real_format_tree(L, R, cfg, opts)
+        table = {}
+        script, seglists, res = real_format_tree(L, R, cfg, opts, table)
         st.evaluations += 1
         st.units["U9"] = st.units.get("U9", 0) + 1
         if script is None:
@@ -241,16 +268,46 @@ def u9_cases(seed, lo, hi, extra):
         tt = "|".join(xt.enc_str(t) for t in cfg.get("text_tags", ()))
         ft = "|".join(xt.enc_str(t) for t in cfg.get("formatting_tags", ()))
         reqs.append("\t".join(["xmlfmt", tt, ft, "1" if cfg.get("use_replace") else "0", xt.enc_tree(L), xt.enc_tree(R), xt.enc_script(script), enc_segs(seglists)]))
-        pend.append((res, desc))
+        pend.append(("U9", res, desc))
+        # U10: the same case with the engine model inside the formatter model (Acc.formatTreeE)
+        tbl = " ".join(f"{xt.enc_str(k[0])}:{xt.enc_str(k[1])}:" + (f"{v[0]}:{v[1]}" if v else "n:n") for k, v in table.items())
+        reqs.append("\t".join(["xmlfmte", tt, ft, "1" if cfg.get("use_replace") else "0", "1" if cfg["normalize"] & 2 else "0", xt.enc_tree(L), xt.enc_tree(R), xt.enc_script(script), tbl]))
+        pend.append(("U10", res, desc))
+        st.units["U10"] = st.units.get("U10", 0) + 1
+        if seglists:
+            st.hist["u10_cases_with_engine_calls"] = st.hist.get("u10_cases_with_engine_calls", 0) + 1
+        if table:
+            st.hist["u10_cases_with_bisect"] = st.hist.get("u10_cases_with_bisect", 0) + 1
+    # U11: utils.cleanup_whitespace(x).strip() vs. Acc.wsNorm (what _make_diff_tags does to both values under WS_TEXT)
+    import random
+    from xmldiff import utils
+    r = random.Random(seed * 7919 + lo)
+    spaces = [chr(c) for c in range(0x3100) if chr(c).isspace()] + ["\u200b", "\u180e", "\ufeff", "\u2060", "\x1b", "\x08"]
+    for k in range(max(4, (hi - lo) // 10)):
+        if lo == 0 and k == 0:
+            x = "".join(c + "a" for c in spaces) + "".join(spaces)
+        else:
+            x = "".join(r.choice(spaces + list("abc")) if r.random() < 0.5 else r.choice("ab ") for _ in range(r.randrange(0, 14)))
+        reqs.append("wsnorm\t" + xt.enc_str(x))
+        pend.append(("U11", ("ws", utils.cleanup_whitespace(x).strip()), {"input": repr(x)}))
+        st.units["U11"] = st.units.get("U11", 0) + 1
     resp = core.run_driver(reqs)
-    for (res, desc), mo in zip(pend, resp):
+    for (unit, res, desc), mo in zip(pend, resp):
+        if unit == "U11":
+            if mo.strip() != ("ok " + xt.enc_str(res[1])).strip():
+                st.disagreements.append({"unit": "U11", "real": repr(res[1]), "model": mo[:200], **desc})
+            continue
+        if unit == "U10":
+            desc = dict(desc, unit="U10")
+            if mo.startswith("err ") and not mo.startswith("err undo"):
+                mo = "err 0 " + mo[4:]
         if res[0] == "ok":
             want = xt.canon_tree(res[1])
             if not mo.startswith("ok ") or xt.doc_eq(xt.dec_tree(mo[3:]), res[1], none_eq_empty=True) is not None or \
                     [n.attrs for n in xt.dec_tree(mo[3:]).iter()] != [n.attrs for n in res[1].iter()]:
-                st.disagreements.append({"unit": "U9", "real": xt.to_xml(res[1])[:900], "model": (xt.to_xml(xt.dec_tree(mo[3:])) if mo.startswith("ok ") else mo)[:900], **desc})
+                st.disagreements.append({"unit": unit, "real": xt.to_xml(res[1])[:900], "model": (xt.to_xml(xt.dec_tree(mo[3:])) if mo.startswith("ok ") else mo)[:900], **desc})
         else:
             exp = EXC_MAP.get(res[1])
             if mo.startswith("ok ") or (exp and not mo.endswith(exp)):
-                st.disagreements.append({"unit": "U9", "real": "exc " + res[1], "model": mo[:300], **desc})
+                st.disagreements.append({"unit": unit, "real": "exc " + res[1], "model": mo[:300], **desc})
     return st
